@@ -100,6 +100,17 @@ def _replay(recs, reused):
                     x = build("line" if dim == 2 else "plane", r["x"])
                     before, after = bool(Q.is_tangent(x)), bool((t * Q).is_tangent(t * x))
                     site = f"Quadric.is_tangent/{dim}D"
+                    # the same statement through the dual quadric: it contains exactly the tangent hyperplanes, its image is the
+                    # dual of the image
+                    try:
+                        D = Q.dual
+                        d_before, d_after = bool(D.contains(x)), bool((t * D).contains(t * x))
+                        same = same_class(np.asarray((t * D).array).reshape(-1), np.asarray((t * Q).dual.array).reshape(-1))
+                        if d_before != r["b"] or d_after != r["b"] or not same:
+                            out.append(dict(site=f"Quadric.dual.contains/{dim}D", stratum=stratum, case=case, expected={"before": r["b"], "after": r["b"], "t*q.dual == (t*q).dual": True},
+                                            observed={"before": d_before, "after": d_after, "t*q.dual == (t*q).dual": bool(same)}))
+                    except Exception as e:  # noqa: BLE001
+                        out.append(dict(site=f"Quadric.dual.contains/{dim}D", stratum=stratum, case=case, expected="no exception", observed=f"raised {type(e).__name__}: {e}"))
                 if before != r["b"] or after != r["b"]:
                     out.append(dict(site=site, stratum=stratum, case=case, expected={"before": r["b"], "after": r["b"]},
                                     observed={"before": before, "after": after}))
